@@ -15,6 +15,8 @@
 //     5 nested   : variant 0 placed behind a nested-graph boundary (child graph owned by a single_nested_graph_node)
 //     6 sos      : schedule_on_start node (node.cpp start_impl asks for the start cycle itself), no required input:
 //                  a active, b passive, c active, all InputValidity::Unchecked
+//     7 combo    : a active+required, b InputActivity::Passive+required, c Unchecked and made passive by passive(port):
+//                  both passive mechanisms on one node (with_passive_inputs must start from the existing active_inputs selector)
 //   symbolic : every payload, every requested wake-up delta
 //   oracle   : per cycle t   ran(t) <=> (active tick at t or own wake-up due at t) and required inputs valid;
 //              every value read == latest value written up to t; sink saw f(values) exactly when the gate ran.
@@ -31,7 +33,7 @@
 #define DMAX 2
 #endif
 #ifndef VARIANT_MASK
-#define VARIANT_MASK 0x7f
+#define VARIANT_MASK 0xff
 #endif
 #ifndef VMAX
 #define VMAX 1000
@@ -127,6 +129,11 @@ struct GateSos {
     static constexpr bool schedule_on_start = true;
     static void eval(In<"a", TS<Int>, InputValidity::Unchecked> a, In<"b", TS<Int>, InputActivity::Passive, InputValidity::Unchecked> b,
                      In<"c", TS<Int>, InputValidity::Unchecked> c,
+                     State<Int> n, Out<TS<Int>> out, DateTime now) { gate_body(a, b, c, n, out, now); }
+};
+struct GateCombo {
+    static constexpr auto name = "gate_combo";
+    static void eval(In<"a", TS<Int>> a, In<"b", TS<Int>, InputActivity::Passive> b, In<"c", TS<Int>, InputValidity::Unchecked> c,
                      State<Int> n, Out<TS<Int>> out, DateTime now) { gate_body(a, b, c, n, out, now); }
 };
 struct GateMarker {
@@ -238,6 +245,7 @@ template <int V> struct Top {
             if constexpr (V == 2) wire<Sink>(w, wire<GateAllValid>(w, {a, b}, c));
             if constexpr (V == 3) wire<Sink>(w, wire_schema_gate(w, a, b, c));
             if constexpr (V == 6) wire<Sink>(w, wire<GateSos>(w, a, b, c));
+            if constexpr (V == 7) wire<Sink>(w, wire<GateCombo>(w, a, b, passive(c)));
             if constexpr (V == 5) {
                 auto out = nested_call(w, "c03_nested", std::type_index(typeid(Top<5>)), {a.erased(), b.erased(), c.erased()},
                                        [](Wiring &cw, std::span<const WiringPortRef> in) -> std::optional<WiringPortRef> {
@@ -257,14 +265,15 @@ GraphBuilder build_variant(int v) {
         case 3: return build_graph<Top<3>>();
         case 4: return build_graph<Top<4>>();
         case 5: return build_graph<Top<5>>();
-        default: return build_graph<Top<6>>();
+        case 6: return build_graph<Top<6>>();
+        default: return build_graph<Top<7>>();
     }
 }
 }  // namespace
 
 extern "C" int harness_main() {
     int nvar = 0, vars[8];
-    for (int v = 0; v < 7; v++) if (VARIANT_MASK & (1 << v)) vars[nvar++] = v;
+    for (int v = 0; v < 8; v++) if (VARIANT_MASK & (1 << v)) vars[nvar++] = v;
     g_variant = vars[verif_choice("variant", nvar)];
     const int V = g_variant;
     const bool wake = V == 4;
@@ -280,15 +289,18 @@ extern "C" int harness_main() {
     bool ok_if = true, ok_valid = true, ok_cause = true, ok_cancel = true, ok_passive = true, ok_once = true;
     bool ok_vals = true, ok_out = true, ok_sink_iff = true, ok_state = true;
     bool r_passive_only = false, r_active_invalid = false, r_both_active = false, r_wake_only = false, r_wake_invalid = false,
-         r_cancel_due = false, r_unchecked_invalid = false, r_b_late = false, r_ran_on_wake = false, r_start_wake = false;
+         r_cancel_due = false, r_unchecked_invalid = false, r_b_late = false, r_ran_on_wake = false, r_start_wake = false, r_combo_b = false, r_combo_c = false;
     Int cnt = 0;
     for (int j = 0; j < NT; j++) {
         DateTime t = start + TimeDelta{j};
         for (int k = 0; k < nsrc; k++)
             if (j < NCYC && g_tick[k][j]) { valid[k] = true; lv[k] = g_val[k][j]; }
+        const bool req_valid_prev = valid[0] & valid[1];  // required inputs already valid before this cycle's ticks
         bool ta = j < NCYC && g_tick[0][j], tb = j < NCYC && g_tick[1][j], tc = !wake && j < NCYC && g_tick[2][j];
-        bool active_tick = V == 2 ? (ta | tb | tc) : (ta | tc);
-        bool passive_tick = V == 2 ? false : tb;
+        bool active_tick = V == 2 ? (ta | tb | tc) : V == 7 ? ta : (ta | tc);
+        bool passive_tick = V == 2 ? false : V == 7 ? (tb | tc) : tb;
+        r_combo_b |= V == 7 && tb && !tc && !ta && req_valid_prev;
+        r_combo_c |= V == 7 && tc && !tb && !ta && req_valid_prev;
         bool req_valid = V == 6 ? true : (valid[0] & valid[1]);
         bool wake_due = false, cancel_due = false;
         for (int r = 0; r < g_nreq; r++) {
@@ -363,6 +375,7 @@ extern "C" int harness_main() {
     if (V == 3) verif_reach("variant_schema_gate");
     if (V == 4) verif_reach("variant_wake");
     if (V == 5) verif_reach("variant_nested");
+    if (r_combo_b && r_combo_c) verif_reach("policy_passive_and_wired_passive_combined");
     if (r_start_wake) verif_reach("ran_on_schedule_on_start_only");
     verif_log("runs", g_nruns);
     verif_reach("end");
